@@ -11,13 +11,26 @@
 //! `w$`) so that the monitor can decide the property on the trace alone.
 //!
 //! Ops: `agent <14 programs>` | `cmd <prog>` | `vset l n` | `mupd m k n` | `mrem m k` | `mclr m` | `burst a;b;..` | `stop`
+//!      `vsync l` | `msync m`  a sync request of the remote for the lane (no handler may run: `ValueLaneSync` /
+//!                             `MapLaneSync` report `Modification::no_trigger`)
+//!      `agentd <cap> <14 programs>`  the same agent run through the public `Agent::run` with the HARNESS as the
+//!                             runtime (`AgentContext`): the lanes' output byte channels have capacity `cap`
+//!                             (`LaneConfig::output_buffer_size`) and are read only by `rd`, so the agent task's
+//!                             `item_writers` / `pending_writes` / `dirty_items` write flush meets busy writers,
+//!                             `WriteResult::DataStillAvailable` and late `WriteComplete` events
+//!      `rd <v0|v1|v2|m0|m1|cmd|all> <k>`  k rounds of reading what is available on the output of the lane(s)
+//!                             (a no-op on the `agent` rig, whose runtime task reads promptly)
+//!
+//! Lanes v1, v2, m0, m1 are RENAMED (`#[item(convention = "camel")]`, `#[item(name = ..)]`, field names differing
+//! from the external names): requests are addressed by external name, the lifecycle is labelled by field name.
 use std::collections::HashMap;
 use std::num::NonZeroUsize;
 use std::sync::{Arc, Mutex};
 use std::time::Duration;
 
 use bytes::Bytes;
-use futures::SinkExt;
+use futures::future::{ready, BoxFuture};
+use futures::{FutureExt, SinkExt};
 use svh::{parse_args, Mode, Rng, Trace};
 use swimos::agent::agent_lifecycle::HandlerContext;
 use swimos::agent::agent_model::AgentModel;
@@ -25,7 +38,12 @@ use swimos::agent::event_handler::{Either, EventHandler, HandlerActionExt, Local
 use swimos::agent::lanes::{CommandLane, MapLane, ValueLane};
 use swimos::agent::{lifecycle, projections, AgentLaneModel};
 use swimos_api::address::RelativeAddress;
-use swimos_api::agent::{AgentConfig, LaneConfig};
+use swimos_agent_protocol::encoding::lane::{MapLaneRequestEncoder, ValueLaneRequestEncoder};
+use swimos_agent_protocol::{LaneRequest, MapMessage};
+use swimos_api::agent::{
+    Agent, AgentConfig, AgentContext, DownlinkKind, HttpLaneRequestChannel, LaneConfig, StoreKind, WarpLaneKind,
+};
+use swimos_api::error::{AgentRuntimeError, AgentTaskError, DownlinkRuntimeError, OpenStoreError};
 use swimos_messages::protocol::{RawRequestMessageEncoder, RequestMessage};
 use swimos_runtime::agent::{
     AgentAttachmentRequest, AgentExecError, AgentRouteChannels, AgentRouteDescriptor, AgentRouteTask,
@@ -235,28 +253,38 @@ fn parse_h(s: &str) -> Option<H> {
 const NV: usize = 3;
 const NM: usize = 2;
 
+/// Field names (used by the lifecycle and by `lifecycle_item_ids`) and external names (used by the runtime and by
+/// `external_item_ids`) differ for four of the five lanes.
 #[projections]
 #[derive(AgentLaneModel)]
 struct Ag {
     v0: ValueLane<i64>,
-    v1: ValueLane<i64>,
+    #[item(convention = "camel")]
+    val_one: ValueLane<i64>,
+    #[item(name = "vTwo")]
     v2: ValueLane<i64>,
-    m0: MapLane<i64, i64>,
+    #[item(convention = "camel")]
+    map_zero: MapLane<i64, i64>,
+    #[item(name = "mapOne")]
     m1: MapLane<i64, i64>,
     cmd: CommandLane<String>,
 }
 
+/// External lane names.
+const VNAMES: [&str; NV] = ["v0", "valOne", "vTwo"];
+const MNAMES: [&str; NM] = ["mapZero", "mapOne"];
+
 fn vlane(l: usize) -> fn(&Ag) -> &ValueLane<i64> {
     match l {
         0 => Ag::V0,
-        1 => Ag::V1,
+        1 => Ag::VAL_ONE,
         _ => Ag::V2,
     }
 }
 
 fn mlane(m: usize) -> fn(&Ag) -> &MapLane<i64, i64> {
     match m {
-        0 => Ag::M0,
+        0 => Ag::MAP_ZERO,
         _ => Ag::M1,
     }
 }
@@ -423,11 +451,11 @@ impl Lc {
     fn set0(&self, ctx: HandlerContext<Ag>, new: &i64, prev: Option<i64>) -> impl EventHandler<Ag> {
         self.bracket(ctx, format!("<S0({},{})", fmt_opt(prev), new), ">S0".into(), &self.prog.set[0])
     }
-    #[on_event(v1)]
+    #[on_event(val_one)]
     fn ev1(&self, ctx: HandlerContext<Ag>, new: &i64) -> impl EventHandler<Ag> {
         self.bracket(ctx, format!("<E1({})", new), ">E1".into(), &self.prog.ev[1])
     }
-    #[on_set(v1)]
+    #[on_set(val_one)]
     fn set1(&self, ctx: HandlerContext<Ag>, new: &i64, prev: Option<i64>) -> impl EventHandler<Ag> {
         self.bracket(ctx, format!("<S1({},{})", fmt_opt(prev), new), ">S1".into(), &self.prog.set[1])
     }
@@ -440,7 +468,7 @@ impl Lc {
         self.bracket(ctx, format!("<S2({},{})", fmt_opt(prev), new), ">S2".into(), &self.prog.set[2])
     }
 
-    #[on_update(m0)]
+    #[on_update(map_zero)]
     fn up0(
         &self,
         ctx: HandlerContext<Ag>,
@@ -451,11 +479,11 @@ impl Lc {
     ) -> impl EventHandler<Ag> {
         self.bracket(ctx, format!("<U0.{}({},{})", key, fmt_opt(prev), new), ">U0".into(), &self.prog.upd[0])
     }
-    #[on_remove(m0)]
+    #[on_remove(map_zero)]
     fn rm0(&self, ctx: HandlerContext<Ag>, _map: &HashMap<i64, i64>, key: i64, prev: i64) -> impl EventHandler<Ag> {
         self.bracket(ctx, format!("<R0.{}({})", key, prev), ">R0".into(), &self.prog.rem[0])
     }
-    #[on_clear(m0)]
+    #[on_clear(map_zero)]
     fn cl0(&self, ctx: HandlerContext<Ag>, before: HashMap<i64, i64>) -> impl EventHandler<Ag> {
         self.bracket(ctx, format!("<X0{}", fmt_map(&before)), ">X0".into(), &self.prog.clr[0])
     }
@@ -480,18 +508,99 @@ impl Lc {
     }
 }
 
-// ------------------------------------------------------------------------------------------------ E2E rig
+// ------------------------------------------------------------------------------------------------ E2E rigs
 
 const NODE: &str = "/node";
 
-struct Rig {
-    log: Log,
-    probe: Log,
+/// A request of the runtime side.
+#[derive(Clone, Debug)]
+enum Req {
+    Cmd(String),
+    VSet(usize, i64),
+    MUpd(usize, i64, i64),
+    MRem(usize, i64),
+    MClr(usize),
+    VSync(usize),
+    MSync(usize),
+}
+
+type Io = (ByteWriter, ByteReader);
+
+/// The harness as the runtime (`agentd`): hands out the lanes' byte channels and keeps the other ends.
+struct DirectCtx {
+    lanes: Arc<Mutex<HashMap<String, Io>>>,
+    keep: Arc<Mutex<Vec<ByteReader>>>,
+}
+
+impl AgentContext for DirectCtx {
+    fn command_channel(&self) -> BoxFuture<'static, Result<ByteWriter, DownlinkRuntimeError>> {
+        let (tx, rx) = byte_channel(nz(1 << 16));
+        self.keep.lock().unwrap().push(rx);
+        ready(Ok(tx)).boxed()
+    }
+
+    fn add_lane(
+        &self,
+        name: &str,
+        _lane_kind: WarpLaneKind,
+        config: LaneConfig,
+    ) -> BoxFuture<'static, Result<Io, AgentRuntimeError>> {
+        let (tx_in, rx_in) = byte_channel(config.input_buffer_size);
+        let (tx_out, rx_out) = byte_channel(config.output_buffer_size);
+        self.lanes.lock().unwrap().insert(name.to_string(), (tx_in, rx_out));
+        ready(Ok((tx_out, rx_in))).boxed()
+    }
+
+    fn add_http_lane(&self, _name: &str) -> BoxFuture<'static, Result<HttpLaneRequestChannel, AgentRuntimeError>> {
+        ready(Err(AgentRuntimeError::Terminated)).boxed()
+    }
+
+    fn open_downlink(
+        &self,
+        _host: Option<&str>,
+        _node: &str,
+        _lane: &str,
+        _kind: DownlinkKind,
+    ) -> BoxFuture<'static, Result<Io, DownlinkRuntimeError>> {
+        ready(Err(DownlinkRuntimeError::RuntimeError(AgentRuntimeError::Terminated))).boxed()
+    }
+
+    fn add_store(&self, _name: &str, _kind: StoreKind) -> BoxFuture<'static, Result<Io, OpenStoreError>> {
+        ready(Err(OpenStoreError::StoresNotSupported)).boxed()
+    }
+}
+
+/// The runtime side of the `agent` rig: one remote attached to the real runtime task.
+struct Full {
     task: Option<tokio::task::JoinHandle<Result<(), AgentExecError>>>,
     stop_tx: Option<trigger::Sender>,
     writer: Option<FramedWrite<ByteWriter, RawRequestMessageEncoder>>,
     remote: Uuid,
     _keep: Box<dyn std::any::Any>,
+}
+
+/// The runtime side of the `agentd` rig: the lanes' channels themselves.
+struct Direct {
+    task: Option<tokio::task::JoinHandle<Result<(), AgentTaskError>>>,
+    vtx: HashMap<&'static str, FramedWrite<ByteWriter, ValueLaneRequestEncoder>>,
+    mtx: HashMap<&'static str, FramedWrite<ByteWriter, MapLaneRequestEncoder>>,
+    rx: HashMap<&'static str, ByteReader>,
+    cap: usize,
+    /// bytes read from the lanes' outputs (statistics only)
+    read: usize,
+}
+
+enum Link {
+    Full(Full),
+    Direct(Direct),
+    /// `on_start` failed: there is no agent task
+    NoStart,
+}
+
+struct Rig {
+    log: Log,
+    probe: Log,
+    link: Link,
     ended: Option<&'static str>,
 }
 
@@ -504,30 +613,45 @@ fn nz(n: usize) -> NonZeroUsize {
     NonZeroUsize::new(n).unwrap()
 }
 
+fn split_progs(progs: Vec<H>, log: &Log, probe: &Log) -> Lc {
+    let mut it = progs.into_iter();
+    let on_start = it.next().unwrap();
+    let on_stop = it.next().unwrap();
+    let mut ev = vec![];
+    let mut set = vec![];
+    for _ in 0..NV {
+        ev.push(it.next().unwrap());
+        set.push(it.next().unwrap());
+    }
+    let (mut upd, mut rem, mut clr) = (vec![], vec![], vec![]);
+    for _ in 0..NM {
+        upd.push(it.next().unwrap());
+        rem.push(it.next().unwrap());
+        clr.push(it.next().unwrap());
+    }
+    Lc { prog: Arc::new(Prog { on_start, on_stop, ev, set, upd, rem, clr }), log: log.clone(), probe: probe.clone() }
+}
+
+const LANE_IDS: [&str; NV + NM + 1] = ["v0", "v1", "v2", "m0", "m1", "cmd"];
+
+/// Harness lane id (`v1`, `m0`, …) to external lane name.
+fn ext_name(id: &str) -> Option<&'static str> {
+    match id {
+        "v0" => Some(VNAMES[0]),
+        "v1" => Some(VNAMES[1]),
+        "v2" => Some(VNAMES[2]),
+        "m0" => Some(MNAMES[0]),
+        "m1" => Some(MNAMES[1]),
+        "cmd" => Some("cmd"),
+        _ => None,
+    }
+}
+
 impl Rig {
     async fn start(progs: Vec<H>) -> Rig {
-        let mut it = progs.into_iter();
-        let on_start = it.next().unwrap();
-        let on_stop = it.next().unwrap();
-        let mut ev = vec![];
-        let mut set = vec![];
-        for _ in 0..NV {
-            ev.push(it.next().unwrap());
-            set.push(it.next().unwrap());
-        }
-        let (mut upd, mut rem, mut clr) = (vec![], vec![], vec![]);
-        for _ in 0..NM {
-            upd.push(it.next().unwrap());
-            rem.push(it.next().unwrap());
-            clr.push(it.next().unwrap());
-        }
         let log: Log = Default::default();
         let probe: Log = Default::default();
-        let lc = Lc {
-            prog: Arc::new(Prog { on_start, on_stop, ev, set, upd, rem, clr }),
-            log: log.clone(),
-            probe: probe.clone(),
-        };
+        let lc = split_progs(progs, &log, &probe);
         let agent = AgentModel::new(Ag::default, lc.into_lifecycle());
         let (att_tx, att_rx) = mpsc::channel(8);
         let (http_tx, http_rx) = mpsc::channel(8);
@@ -557,34 +681,141 @@ impl Rig {
         let (in_tx, in_rx) = byte_channel(nz(65536));
         let (done_tx, done_rx) = trigger::promise::promise::<DisconnectionReason>();
         let (att_done_tx, att_done_rx) = trigger::trigger();
-        let mut rig = Rig {
-            log,
-            probe,
-            task: Some(task),
-            stop_tx: Some(stop_tx),
-            writer: None,
-            remote,
-            _keep: Box::new(()),
-            ended: None,
-        };
+        let mut full = Full { task: Some(task), stop_tx: Some(stop_tx), writer: None, remote, _keep: Box::new(()) };
         let req = AgentAttachmentRequest::with_confirmation(remote, (out_tx, in_rx), done_tx, att_done_tx);
         let attached = att_tx.send(req).await.is_ok() && att_done_rx.await.is_ok();
         if attached {
-            rig.writer = Some(FramedWrite::new(in_tx, RawRequestMessageEncoder));
+            full.writer = Some(FramedWrite::new(in_tx, RawRequestMessageEncoder));
         }
         // the remote never reads: keep the outgoing side alive and drain it in the background
         let drain = tokio::spawn(drain(out_rx));
-        rig._keep = Box::new((att_tx, http_tx, link_rx, done_rx, drain));
+        full._keep = Box::new((att_tx, http_tx, link_rx, done_rx, drain));
         quiesce().await;
-        rig
+        Rig { log, probe, link: Link::Full(full), ended: None }
     }
 
-    async fn send(&mut self, lane: &str, body: String) {
-        if let Some(w) = self.writer.as_mut() {
-            let msg: RequestMessage<&str, Bytes> =
-                RequestMessage::command(self.remote, RelativeAddress::new(NODE, lane), Bytes::from(body));
-            if w.send(msg).await.is_err() {
-                self.writer = None;
+    /// The same agent, the harness being the runtime: lane outputs of capacity `cap`, read only by `rd`.
+    async fn start_direct(cap: usize, progs: Vec<H>) -> Rig {
+        let log: Log = Default::default();
+        let probe: Log = Default::default();
+        let lc = split_progs(progs, &log, &probe);
+        let agent = AgentModel::new(Ag::default, lc.into_lifecycle());
+        let lanes: Arc<Mutex<HashMap<String, Io>>> = Default::default();
+        let keep: Arc<Mutex<Vec<ByteReader>>> = Default::default();
+        let ctx = DirectCtx { lanes: lanes.clone(), keep };
+        let lane_conf = LaneConfig { input_buffer_size: nz(16384), output_buffer_size: nz(cap), transient: true };
+        let config = AgentConfig { default_lane_config: Some(lane_conf), ..Default::default() };
+        // initialisation: lanes registered, `on_start` run
+        let init = agent.run(NODE.parse().unwrap(), HashMap::new(), config, Box::new(ctx)).await;
+        let task = match init {
+            Ok(t) => tokio::spawn(t),
+            Err(_) => return Rig { log, probe, link: Link::NoStart, ended: Some("nostart") },
+        };
+        let mut d = Direct { task: Some(task), vtx: HashMap::new(), mtx: HashMap::new(), rx: HashMap::new(), cap, read: 0 };
+        {
+            let mut g = lanes.lock().unwrap();
+            for n in VNAMES.iter().chain(["cmd"].iter()) {
+                if let Some((tx, rx)) = g.remove(*n) {
+                    d.vtx.insert(*n, FramedWrite::new(tx, Default::default()));
+                    d.rx.insert(*n, rx);
+                }
+            }
+            for n in MNAMES.iter() {
+                if let Some((tx, rx)) = g.remove(*n) {
+                    d.mtx.insert(*n, FramedWrite::new(tx, Default::default()));
+                    d.rx.insert(*n, rx);
+                }
+            }
+        }
+        quiesce().await;
+        Rig { log, probe, link: Link::Direct(d), ended: None }
+    }
+
+    async fn send(&mut self, req: &Req) {
+        match &mut self.link {
+            Link::Full(f) => {
+                let remote = f.remote;
+                if let Some(w) = f.writer.as_mut() {
+                    fn cmd(remote: Uuid, lane: &'static str, body: String) -> RequestMessage<&'static str, Bytes> {
+                        RequestMessage::command(remote, RelativeAddress::new(NODE, lane), Bytes::from(body))
+                    }
+                    let msg: RequestMessage<&str, Bytes> = match req {
+                        Req::Cmd(p) => cmd(remote, "cmd", format!("\"{}\"", p)),
+                        Req::VSet(l, n) => cmd(remote, VNAMES[*l], n.to_string()),
+                        Req::MUpd(m, k, n) => cmd(remote, MNAMES[*m], format!("@update(key:{}) {}", k, n)),
+                        Req::MRem(m, k) => cmd(remote, MNAMES[*m], format!("@remove(key:{})", k)),
+                        Req::MClr(m) => cmd(remote, MNAMES[*m], "@clear".into()),
+                        Req::VSync(l) => RequestMessage::sync(remote, RelativeAddress::new(NODE, VNAMES[*l])),
+                        Req::MSync(m) => RequestMessage::sync(remote, RelativeAddress::new(NODE, MNAMES[*m])),
+                    };
+                    if w.send(msg).await.is_err() {
+                        f.writer = None;
+                    }
+                }
+            }
+            Link::Direct(d) => {
+                let id = Uuid::from_u128(77);
+                match req {
+                    Req::Cmd(p) => {
+                        if let Some(w) = d.vtx.get_mut("cmd") {
+                            let _ = w.send(LaneRequest::Command(p.clone())).await;
+                        }
+                    }
+                    Req::VSet(l, n) => {
+                        if let Some(w) = d.vtx.get_mut(VNAMES[*l]) {
+                            let _ = w.send(LaneRequest::Command(*n)).await;
+                        }
+                    }
+                    Req::VSync(l) => {
+                        if let Some(w) = d.vtx.get_mut(VNAMES[*l]) {
+                            let _ = w.send(LaneRequest::<i64>::Sync(id)).await;
+                        }
+                    }
+                    Req::MUpd(m, k, n) => {
+                        if let Some(w) = d.mtx.get_mut(MNAMES[*m]) {
+                            let _ = w.send(LaneRequest::Command(MapMessage::Update { key: *k, value: *n })).await;
+                        }
+                    }
+                    Req::MRem(m, k) => {
+                        if let Some(w) = d.mtx.get_mut(MNAMES[*m]) {
+                            let _ = w.send(LaneRequest::Command(MapMessage::<i64, i64>::Remove { key: *k })).await;
+                        }
+                    }
+                    Req::MClr(m) => {
+                        if let Some(w) = d.mtx.get_mut(MNAMES[*m]) {
+                            let _ = w.send(LaneRequest::Command(MapMessage::<i64, i64>::Clear)).await;
+                        }
+                    }
+                    Req::MSync(m) => {
+                        if let Some(w) = d.mtx.get_mut(MNAMES[*m]) {
+                            let _ = w.send(LaneRequest::<MapMessage<i64, i64>>::Sync(id)).await;
+                        }
+                    }
+                }
+            }
+            Link::NoStart => {}
+        }
+    }
+
+    /// `rd`: `rounds` times, read what is available on the output of each of the lanes, letting the agent run in between.
+    async fn read_outputs(&mut self, lanes: &[&'static str], rounds: usize) {
+        use tokio::io::AsyncReadExt;
+        if let Link::Direct(d) = &mut self.link {
+            let mut buf = vec![0u8; d.cap.min(4096)];
+            for _ in 0..rounds {
+                let mut any = false;
+                for n in lanes {
+                    if let Some(rx) = d.rx.get_mut(n) {
+                        if let Ok(Ok(k)) = tokio::time::timeout(Duration::from_millis(1), rx.read(&mut buf)).await {
+                            d.read += k;
+                            any |= k > 0;
+                        }
+                    }
+                }
+                quiesce().await;
+                if !any {
+                    break;
+                }
             }
         }
     }
@@ -596,7 +827,7 @@ impl Rig {
     /// Ask the agent for its lane values through the command lane; `None` when it no longer answers.
     async fn snapshot(&mut self) -> Option<String> {
         self.probe.lock().unwrap().clear();
-        self.send("cmd", "\"probe\"".into()).await;
+        self.send(&Req::Cmd("probe".into())).await;
         quiesce().await;
         let p = std::mem::take(&mut *self.probe.lock().unwrap());
         if p.len() == NV + NM {
@@ -628,19 +859,38 @@ impl Rig {
         if let Some(e) = self.ended {
             return e;
         }
-        if let Some(tx) = self.stop_tx.take() {
-            tx.trigger();
-        }
-        self.writer = None;
-        let r = match self.task.take() {
-            Some(t) => match tokio::time::timeout(Duration::from_secs(1_000_000), t).await {
-                Ok(Ok(Ok(()))) => "stopped",
-                Ok(Ok(Err(AgentExecError::FailedInit(_)))) => "nostart",
-                Ok(Ok(Err(_))) => "failed",
-                Ok(Err(_)) => "panic",
-                Err(_) => "hang",
-            },
-            None => "dead",
+        let r = match &mut self.link {
+            Link::Full(f) => {
+                if let Some(tx) = f.stop_tx.take() {
+                    tx.trigger();
+                }
+                f.writer = None;
+                match f.task.take() {
+                    Some(t) => match tokio::time::timeout(Duration::from_secs(1_000_000), t).await {
+                        Ok(Ok(Ok(()))) => "stopped",
+                        Ok(Ok(Err(AgentExecError::FailedInit(_)))) => "nostart",
+                        Ok(Ok(Err(_))) => "failed",
+                        Ok(Err(_)) => "panic",
+                        Err(_) => "hang",
+                    },
+                    None => "dead",
+                }
+            }
+            Link::Direct(d) => {
+                // the runtime closes the inputs of all lanes: the agent leaves its loop and runs `on_stop`
+                d.vtx.clear();
+                d.mtx.clear();
+                match d.task.take() {
+                    Some(t) => match tokio::time::timeout(Duration::from_secs(1_000_000), t).await {
+                        Ok(Ok(Ok(()))) => "stopped",
+                        Ok(Ok(Err(_))) => "failed",
+                        Ok(Err(_)) => "panic",
+                        Err(_) => "hang",
+                    },
+                    None => "dead",
+                }
+            }
+            Link::NoStart => "nostart",
         };
         self.ended = Some(r);
         r
@@ -658,17 +908,17 @@ async fn drain(mut rx: ByteReader) {
     }
 }
 
-fn lane_cmd(parts: &[&str]) -> Option<(String, String)> {
+fn lane_cmd(parts: &[&str]) -> Option<Req> {
     let num = |s: &str, lim: i64| s.parse::<i64>().ok().filter(|n| *n >= 0 && *n < lim && !s.starts_with('+'));
     let int = |s: &str| s.parse::<i64>().ok().filter(|_| !s.starts_with('+'));
     match parts {
-        ["cmd", p] => parse_h(p).map(|_| ("cmd".to_string(), format!("\"{}\"", p))),
-        ["vset", l, n] => Some((format!("v{}", num(l, NV as i64)?), int(n)?.to_string())),
-        ["mupd", m, k, n] => {
-            Some((format!("m{}", num(m, NM as i64)?), format!("@update(key:{}) {}", num(k, 10)?, int(n)?)))
-        }
-        ["mrem", m, k] => Some((format!("m{}", num(m, NM as i64)?), format!("@remove(key:{})", num(k, 10)?))),
-        ["mclr", m] => Some((format!("m{}", num(m, NM as i64)?), "@clear".into())),
+        ["cmd", p] => parse_h(p).map(|_| Req::Cmd(p.to_string())),
+        ["vset", l, n] => Some(Req::VSet(num(l, NV as i64)? as usize, int(n)?)),
+        ["mupd", m, k, n] => Some(Req::MUpd(num(m, NM as i64)? as usize, num(k, 10)?, int(n)?)),
+        ["mrem", m, k] => Some(Req::MRem(num(m, NM as i64)? as usize, num(k, 10)?)),
+        ["mclr", m] => Some(Req::MClr(num(m, NM as i64)? as usize)),
+        ["vsync", l] => Some(Req::VSync(num(l, NV as i64)? as usize)),
+        ["msync", m] => Some(Req::MSync(num(m, NM as i64)? as usize)),
         _ => None,
     }
 }
@@ -694,6 +944,25 @@ async fn run_case_async(ops: &[String]) -> Vec<String> {
                     None => "bad-op".into(),
                 }
             }
+            ["agentd", cap, progs @ ..] if progs.len() == 2 + 2 * NV + 3 * NM => {
+                let ps: Option<Vec<H>> = progs.iter().map(|p| parse_h(p)).collect();
+                let cap = cap
+                    .parse::<usize>()
+                    .ok()
+                    .filter(|c| *c >= 1 && *c <= 1 << 20 && cap.chars().all(|ch| ch.is_ascii_digit()));
+                match (ps, cap) {
+                    (Some(ps), Some(cap)) => {
+                        if let Some(mut old) = rig.take() {
+                            old.finish().await;
+                        }
+                        let mut r = Rig::start_direct(cap, ps).await;
+                        let o = r.report().await;
+                        rig = Some(r);
+                        o
+                    }
+                    _ => "bad-op".into(),
+                }
+            }
             ["stop"] => match rig.as_mut() {
                 Some(r) if r.ended.is_none() => {
                     r.take_log();
@@ -704,14 +973,31 @@ async fn run_case_async(ops: &[String]) -> Vec<String> {
                 Some(_) => "dead".into(),
                 None => "bad-op".into(),
             },
+            ["rd", lane, k] => {
+                let lanes: Option<Vec<&'static str>> = if *lane == "all" {
+                    Some(LANE_IDS.iter().filter_map(|l| ext_name(l)).collect())
+                } else {
+                    ext_name(lane).map(|n| vec![n])
+                };
+                let k = k.parse::<usize>().ok().filter(|n| *n <= 1000 && k.chars().all(|ch| ch.is_ascii_digit()));
+                match (rig.as_mut(), lanes, k) {
+                    (Some(r), Some(lanes), Some(k)) if r.ended.is_none() => {
+                        r.read_outputs(&lanes, k).await;
+                        quiesce().await;
+                        r.report().await
+                    }
+                    (Some(_), Some(_), Some(_)) => "dead".into(),
+                    _ => "bad-op".into(),
+                }
+            }
             ["burst", items @ ..] => {
                 // validate the whole burst before anything is sent
-                let reqs: Option<Vec<(String, String)>> =
+                let reqs: Option<Vec<Req>> =
                     items.iter().map(|it| lane_cmd(&it.split(':').collect::<Vec<&str>>())).collect();
                 match (rig.as_mut(), reqs) {
                     (Some(r), Some(reqs)) if r.ended.is_none() => {
-                        for (lane, body) in reqs {
-                            r.send(&lane, body).await;
+                        for req in reqs {
+                            r.send(&req).await;
                         }
                         quiesce().await;
                         r.report().await
@@ -721,8 +1007,8 @@ async fn run_case_async(ops: &[String]) -> Vec<String> {
                 }
             }
             other => match (rig.as_mut(), lane_cmd(other)) {
-                (Some(r), Some((lane, body))) if r.ended.is_none() => {
-                    r.send(&lane, body).await;
+                (Some(r), Some(req)) if r.ended.is_none() => {
+                    r.send(&req).await;
                     quiesce().await;
                     r.report().await
                 }
@@ -869,16 +1155,88 @@ impl Gen {
     fn op(&mut self, depth: u64) -> String {
         if self.rng.chance(1, 60) {
             // malformed program text / out-of-range lanes: rejected by both sides before anything runs
-            return (*self.rng.pick(&["cmd F(e1", "cmd s7=1", "cmd Q[e1,]", "cmd u2.1=5", "vset 3 1", "mupd 0 x 1", "cmd"]))
-                .to_string();
+            return (*self.rng.pick(&[
+                "cmd F(e1", "cmd s7=1", "cmd Q[e1,]", "cmd u2.1=5", "vset 3 1", "mupd 0 x 1", "cmd", "vsync 3", "msync 2",
+                "rd v3 1", "rd all x",
+            ]))
+            .to_string();
         }
         match self.rng.below(100) {
-            0..=69 => format!("cmd {}", self.h(depth, 0, 0, true)),
-            70..=79 => format!("vset {} {}", self.rng.below(NV as u64), self.rng.range(0, 30)),
-            80..=89 => format!("mupd {} {} {}", self.rng.below(NM as u64), self.rng.below(3), self.rng.range(0, 30)),
-            90..=95 => format!("mrem {} {}", self.rng.below(NM as u64), self.rng.below(3)),
-            _ => format!("mclr {}", self.rng.below(NM as u64)),
+            0..=63 => format!("cmd {}", self.h(depth, 0, 0, true)),
+            64..=73 => format!("vset {} {}", self.rng.below(NV as u64), self.rng.range(0, 30)),
+            74..=83 => format!("mupd {} {} {}", self.rng.below(NM as u64), self.rng.below(3), self.rng.range(0, 30)),
+            84..=89 => format!("mrem {} {}", self.rng.below(NM as u64), self.rng.below(3)),
+            90..=92 => format!("mclr {}", self.rng.below(NM as u64)),
+            93..=96 => format!("vsync {}", self.rng.below(NV as u64)),
+            _ => format!("msync {}", self.rng.below(NM as u64)),
         }
+    }
+
+    /// `rd`: a few rounds on one lane, or (often) enough rounds on all lanes to drain everything.
+    fn rd(&mut self, hot_v: u64, hot_m: u64) -> String {
+        match self.rng.below(10) {
+            0..=3 => format!("rd v{} {}", hot_v, self.rng.range(1, 8)),
+            4..=5 => format!("rd m{} {}", hot_m, self.rng.range(1, 8)),
+            6 => format!("rd {} {}", self.rng.pick(&LANE_IDS), self.rng.range(1, 8)),
+            _ => format!("rd all {}", self.rng.range(1, 60)),
+        }
+    }
+
+    /// Ops of a case of the `agentd` rig: requests and sync requests concentrated on one value lane and one map
+    /// lane, so that updates and syncs queue up behind a write the harness has not read yet.
+    fn slow_ops(&mut self, burst: bool) -> Vec<String> {
+        let hot_v = self.rng.below(NV as u64);
+        let hot_m = self.rng.below(NM as u64);
+        let mut ops = vec![];
+        let n = self.rng.range(2, 7);
+        for _ in 0..n {
+            let vl = if self.rng.chance(3, 4) { hot_v } else { self.rng.below(NV as u64) };
+            let ml = if self.rng.chance(3, 4) { hot_m } else { self.rng.below(NM as u64) };
+            let val = self.rng.range(0, 30);
+            let mut one = |g: &mut Gen| -> String {
+                match g.rng.below(100) {
+                    0..=29 => format!("vset {} {}", vl, g.rng.range(0, 30)),
+                    30..=49 => format!("vsync {}", vl),
+                    50..=61 => format!("mupd {} {} {}", ml, g.rng.below(3), g.rng.range(0, 30)),
+                    62..=66 => format!("mclr {}", ml),
+                    67..=74 => format!("msync {}", ml),
+                    _ => {
+                        let d = g.rng.range(1, 3);
+                        format!("cmd {}", g.h(d, 0, 0, true))
+                    }
+                }
+            };
+            if burst {
+                let k = self.rng.range(2, 5);
+                let items: Vec<String> = (0..k).map(|_| one(self).replace(' ', ":")).collect();
+                ops.push(format!("burst {}", items.join(" ")));
+                if self.rng.chance(1, 2) {
+                    ops.push(self.rd(hot_v, hot_m));
+                }
+            } else {
+                match self.rng.below(100) {
+                    0..=54 => ops.push(one(self)),
+                    55..=59 => ops.push(format!("mrem {} {}", ml, self.rng.below(3))),
+                    60..=81 => ops.push(self.rd(hot_v, hot_m)),
+                    _ => {
+                        // an update being written, then a sync request and another update, then the runtime reads
+                        ops.push(format!("vset {} {}", vl, val));
+                        if self.rng.chance(1, 2) {
+                            ops.push(format!("vsync {}", vl));
+                            ops.push(format!("vset {} {}", vl, val + 1));
+                        } else {
+                            ops.push(format!("vset {} {}", vl, val + 1));
+                            ops.push(format!("vsync {}", vl));
+                        }
+                        ops.push(format!("rd v{} {}", vl, self.rng.range(1, 40)));
+                    }
+                }
+            }
+        }
+        if self.rng.chance(2, 3) {
+            ops.push(format!("rd all {}", self.rng.range(1, 80)));
+        }
+        ops
     }
 }
 
@@ -887,28 +1245,38 @@ fn main() {
         Mode::Gen { seed, cases, out } => {
             let mut t = Trace::create(&out);
             let extra: Vec<String> = std::env::args().skip(5).collect();
-            let burst = extra.first().map(|s| s.as_str()) == Some("burst");
+            let kind = extra.first().map(|s| s.as_str()).unwrap_or("seq");
+            let burst = kind == "burst" || kind == "slowburst";
+            let slow = kind == "slow" || kind == "slowburst";
             let mut g = Gen { rng: Rng::new(seed), susp: true };
             for c in 0..cases {
-                let mut ops = vec![g.agent()];
-                let n = g.rng.range(1, 6);
-                for _ in 0..n {
-                    let depth = g.rng.range(1, 6);
-                    if burst {
-                        let k = g.rng.range(2, 5);
-                        // a remove of an absent key leaves no trace: its position among requests to other lanes
-                        // could not be recovered by the monitor, so bursts do not contain `mrem`
-                        let items: Vec<String> = (0..k)
-                            .map(|_| loop {
-                                let o = g.op(depth.min(3));
-                                if !o.starts_with("mrem") {
-                                    break o.replace(' ', ":");
-                                }
-                            })
-                            .collect();
-                        ops.push(format!("burst {}", items.join(" ")));
-                    } else {
-                        ops.push(g.op(depth));
+                let mut ops = vec![];
+                if slow {
+                    // mostly output channels smaller than one frame: a write completes only when the harness reads
+                    let cap = *g.rng.pick(&[1usize, 4, 4, 8, 8, 12, 16, 16, 24, 32, 48, 64, 65536]);
+                    ops.push(g.agent().replacen("agent", &format!("agentd {}", cap), 1));
+                    ops.extend(g.slow_ops(burst));
+                } else {
+                    ops.push(g.agent());
+                    let n = g.rng.range(1, 6);
+                    for _ in 0..n {
+                        let depth = g.rng.range(1, 6);
+                        if burst {
+                            let k = g.rng.range(2, 5);
+                            // a remove of an absent key leaves no trace: its position among requests to other lanes
+                            // could not be recovered by the monitor, so bursts do not contain `mrem`
+                            let items: Vec<String> = (0..k)
+                                .map(|_| loop {
+                                    let o = g.op(depth.min(3));
+                                    if !o.starts_with("mrem") && !o.starts_with("rd") {
+                                        break o.replace(' ', ":");
+                                    }
+                                })
+                                .collect();
+                            ops.push(format!("burst {}", items.join(" ")));
+                        } else {
+                            ops.push(g.op(depth));
+                        }
                     }
                 }
                 if g.rng.chance(3, 4) {
